@@ -37,7 +37,7 @@ Chain(comps, k, blocker) ==          \* k leading components are directories, th
         next == SubSeq(comps, 1, k + 1)
     IN CASE blocker = "none"     -> dirs
          [] blocker = "file"     -> Put(dirs, next, File(Small(<<1>>)))
-         [] blocker = "linkdir"  -> Put(Put(dirs, next, Link(<<"", "zd">>)), <<"zd">>, Dir)
+         [] blocker = "linkdir"  -> Put(Put(dirs, next, Link([j \in 1..k |-> ".."] \o <<"zd">>)), <<"zd">>, Dir)
          [] blocker = "dangling" -> Put(dirs, next, Link(<<"zz">>))
 Init ==
     /\ raw \in Strings
